@@ -69,6 +69,10 @@ def check_defvjp(C, rep, tier, out):
     forms.append((2, (False, False), (2, 0)))   # argnums= keyword, non-contiguous, out of order
     forms.append((2, (False, True), (1, 3)))
     forms.append((3, (False, False, False), (4, 1, 0)))
+    forms.append((2, (True, False), (1, 2)))     # None belongs to ARGUMENT 1, the rule to argument 2
+    forms.append((1, (True,), (2,)))
+    forms.append((1, (False,), (3,)))
+    forms.append((3, (True, False, True), (3, 0, 2)))
     for m, nones, argnums_kw in forms:
         log = []
         fun = type("Prim", (), {"__name__": "prim", "__call__": lambda s, *a, **k: None})()
@@ -255,6 +259,53 @@ def check_defjvp(C, rep, tier, out):
                             out(f"{FN}.defjvp:{api}.m{m}.{''.join(kinds)}.req{''.join(map(str, req))}:DJ-missing", raised, f"request {req} with only {m} rules registered must raise")
                 finally:
                     C.primitive_jvps.pop(fun, None)
+    # defjvp(fun, *rules, argnums=A): rule j (callable / 'same' / None) belongs to ARGUMENT A[j], not to argument j
+    for argnums_kw in ((1,), (2,), (1, 2), (2, 0), (0, 2), (3, 1)):
+        mm = len(argnums_kw)
+        nargs = max(argnums_kw) + 1
+        for kinds in itertools.product("RSN", repeat=mm):
+            log = []
+
+            class Prim2:
+                __name__ = "prim"
+
+                def __call__(self, *a, **k):
+                    log.append(("prim", a, k))
+                    return Opaque(("prim", tuple(x.term for x in a), tuple(sorted((kk, v.term) for kk, v in k.items()))))
+            fun = Prim2()
+
+            def rule2(a):
+                def r(g, ans, *args, **kwargs):
+                    log.append(("rule", a, g, ans, args, kwargs))
+                    return Opaque(("jvp", a, g.term))
+                return r
+            try:
+                C.defjvp(fun, *[{"R": rule2(a), "S": "same", "N": None}[k] for a, k in zip(argnums_kw, kinds)], argnums=argnums_kw)
+                J = C.primitive_jvps[fun]
+                kind_of_arg = dict(zip(argnums_kw, kinds))
+                reg = sorted(argnums_kw)
+                for r_ in range(1, len(reg) + 1):
+                    for req in itertools.combinations(reg, r_):
+                        del log[:]
+                        ans = Opaque(("ans",))
+                        args = tuple(Opaque(("arg", i)) for i in range(nargs))
+                        res = J(req, [Opaque(("g", a)) for a in req], ans, args, {"k": Opaque(("k",))})
+                        exp = []
+                        for a in req:
+                            k = kind_of_arg[a]
+                            exp.append(("jvp", a, ("g", a)) if k == "R" else ("zeros", ("ans",)) if k == "N" else
+                                       ("prim", tuple(("g", a) if i == a else ("arg", i) for i in range(nargs)), (("k", ("k",)),)))
+                        case = f"defjvp.kw{''.join(map(str, argnums_kw))}.{''.join(kinds)}.req{''.join(map(str, req))}"
+                        out(f"{FN}.defjvp:{case}:DJ-fold", isinstance(res, Opaque) and res.term == _fold_terms(exp), f"{case}: got {getattr(res, 'term', res)} expected {_fold_terms(exp)}")
+                unreg = [a for a in range(nargs + 1) if a not in argnums_kw][0]
+                try:
+                    J((unreg,), [Opaque(("g", unreg))], Opaque(("ans",)), tuple(Opaque(("arg", i)) for i in range(nargs + 1)), {})
+                    raised = False
+                except Exception:
+                    raised = True
+                out(f"{FN}.defjvp:defjvp.kw{''.join(map(str, argnums_kw))}.{''.join(kinds)}.req{unreg}:DJ-missing", raised, f"argument {unreg} has no rule (argnums={argnums_kw}): must raise")
+            finally:
+                C.primitive_jvps.pop(fun, None)
     fun = type("Prim", (), {"__name__": "prim"})()
     try:
         C.defjvp(fun, 42)
